@@ -22,6 +22,7 @@ ENV_MALFORMATIONS = [
 NENVWF = len(ENV_MALFORMATIONS)
 ROLE_SPELLINGS = {"root": ["root"], "key_mgr": ["key_mgr"],
                   "pkg_mgr": ["pkg_mgr", "channeler", "root.json", "Root", "key_mgr ", "ключ"]}
+STDOUT_ENCODINGS = ["utf-8"] * 5 + ["ascii", "ascii", "latin-1", "cp1252", "cp437"]
 BAD_ROLE_ARGS = [5, None, b"root", ["root"], ("key_mgr",), 1.5]
 BAD_GPG_ARGS = ["yes", None, 2, [], "True", -1]
 SIGNED_MALFORMATIONS = [i + 1 for i, m in enumerate(metadata.MALFORMATIONS) if m[1] == "signed"]
@@ -42,6 +43,10 @@ def concretise(case, r, seed):
     if case["drule"]:
         for o in others[: r.randint(1, 3)]:
             dels[o] = metadata.rule(list(allkeys), 1)
+    pad = r.random() < 0.004       # scale: now and then well over a thousand further (well-formed) delegations on either side
+    if pad:
+        for i in range(r.choice([1021, 1100, 1500])):
+            dels["zz-pad-%04d" % i] = metadata.rule([], 1) if i % 3 else metadata.rule([allkeys[i % nk]], 1 + i % 2)
     ttype = r.choice(["root", "key_mgr"])
     tdoc = metadata.delegating_doc(ttype, r.choice([1, 7, 2 ** 40]), dels, r, tag="trusted")
     metadata.apply_signed(tdoc, case["twf"], r)
@@ -54,6 +59,9 @@ def concretise(case, r, seed):
         P, _ = gamma.make_payloads(r)
     else:
         udels = {role: metadata.rule(list(allkeys), 1), "x-decoy": metadata.rule(list(allkeys), 1)}
+        if pad or r.random() < 0.004:
+            for i in range(r.choice([1021, 1100, 1500])):
+                udels["zz-pad-%04d" % i] = metadata.rule([], 1)
         ver = r.choice([1, 2, 99]) if (case["utype"] == "root" or r.random() < .7) else None
         P = metadata.delegating_doc(case["utype"], ver, udels, r, tag="untrusted")
         if case["ukind"] == "delegish":
@@ -78,12 +86,14 @@ def concretise(case, r, seed):
 def run_one(case, r, seed, variant="main"):
     role, untrusted, trusted, gpg = concretise(case, r, seed)
     snap = copy.deepcopy((untrusted, trusted))
-    out, exc, printed = lib.call(lib.cct("authentication").verify_delegation, role, untrusted, trusted, gpg=gpg)
+    # verdicts must not depend on what the process's stdout can encode
+    enc = r.choice(STDOUT_ENCODINGS)
+    out, exc, printed = lib.call(lib.cct("authentication").verify_delegation, role, untrusted, trusted, gpg=gpg, encoding=enc)
     try:
         mutated = twin_canon(untrusted) != twin_canon(snap[0]) or twin_canon(trusted) != twin_canon(snap[1])
     except TypeError:
         mutated = repr(untrusted) != repr(snap[0]) or repr(trusted) != repr(snap[1])
-    return {"variant": variant, "observed": out, "exc": exc, "allowed": case["allowed"], "mutated": mutated,
+    return {"variant": variant, "observed": out, "exc": exc, "allowed": case["allowed"], "mutated": mutated, "stdout_encoding": enc,
             "concrete": {"role": role if isinstance(role, (str, int, float, type(None), list)) else repr(role),
                          "untrusted": snap[0], "trusted": snap[1],
                          "gpg": gpg if isinstance(gpg, (bool, str, int, type(None), list)) else repr(gpg)},
